@@ -288,6 +288,10 @@ def obligations(tier):
                        bounds="%s client, two consecutive client.execute() calls, retries=%d, client.state on entry symbolic (0..6): per attempt a symbolic choice among %s (incl. OSError), symbolic contents; lock ownership recorded at every monitored access (the connect() call that BaseModbusClient.execute makes before entering the transaction manager is the subject of prelock-connect)" % (framing, retries, BEHAVIOURS)))
     out.append(Obl("lock.real-tcp-client", lock_realtcp, timeout=T,
                    bounds="real ModbusTcpClient over a fake socket (select/clock stubbed): two calls, the first reply followed by 0..3 symbolic unsolicited bytes; every socket send/recv/close must happen with the transaction lock owned"))
+    from harness import c13
+    for method in (("ascii",) if tier == "quick" else ("ascii", "rtu", "binary")):
+        out.append(Obl("handover.real-serial.%s" % method, c13.make_realserial(method, (17, 40)), timeout=T, contracts=contracts[method], lemmas=lem[method],
+                       bounds="real ModbusSerialClient(%s): a surplus reply of an earlier caller (17 / 40 stale bytes) is waiting on the line when the next caller's transaction starts: that caller gets the reply to its own request (harness shared with C13)" % method))
     out.append(Obl("prelock-connect.tcp", make_lock("tcp", 0, False, False, prelock=True), timeout=T,
                    whole_finding="KF-connect-outside-transaction-lock",
                    bounds="as lock.tcp.r0: the connect() call of BaseModbusClient.execute must be made with the transaction lock owned"))
